@@ -45,12 +45,13 @@ RcAuth(next, x) ==
   LET full == <<next, 2, 0, 0, 0, 0, 1, 0, 0, 0, 0, 9, 170, 187, 204, 221>> IN
   CASE x = "ok" -> full [] x = "zero" -> [full EXCEPT ![2] = 0] [] x = "cut" -> SubSeq(full, 1, 10) [] x = "big" -> [full EXCEPT ![2] = 3]
 
-\* e = <<kind, variant>>, kind \in {0, 60, 43, 44, 51, other}; variant \in {"ok","long" (16 bytes),"cut","big","frag","zero"}
+\* e = <<kind, variant>>, kind \in {0, 60, 43, 44, 51, other}; variant \in {"ok","long" (16 bytes),"cut","big","frag","zero","rsv1","rsv255"}
 EncExt(e, next) ==
   LET k == e[1]  x == e[2] IN
   IF k = IP_AUTH THEN RcAuth(next, IF x \in {"ok", "zero", "cut", "big"} THEN x ELSE "ok")
   ELSE IF k = IP_FRAG THEN
-       LET h == <<next, 0, IF x = "frag" THEN 0 ELSE 0, IF x = "frag" THEN 9 ELSE IF x = "more" THEN 1 ELSE 6, 0, 0, 0, 7>> IN
+       \* second octet: reserved ("initialized to zero for transmission; ignored on reception", RFC 8200 4.5): it is NOT a length
+       LET h == <<next, IF x = "rsv1" THEN 1 ELSE IF x = "rsv255" THEN 255 ELSE 0, 0, IF x = "frag" THEN 9 ELSE IF x = "more" THEN 1 ELSE 6, 0, 0, 0, 7>> IN
        IF x = "cut" THEN SubSeq(h, 1, 5) ELSE h
   ELSE LET h == IF x = "long" THEN <<next, 1>> \o Rep(14, 0) ELSE IF x = "big" THEN <<next, 1>> \o Rep(6, 0) ELSE <<next, 0>> \o Rep(6, 0) IN
        IF x = "cut" THEN SubSeq(h, 1, 5) ELSE h
@@ -153,7 +154,7 @@ V4s ==
   \* options present AND a total length between the fixed part and the real header length / at the header length
   \cup {[DefV4 EXCEPT !.ihl = i, !.tl = x, !.trail = t] : i \in {"opt", "max"}, x \in {"hdrminus", "hdr", "twenty", "minus", "plus"}, t \in {0, 3}}
 
-ExtKinds == {<<0, "ok">>, <<60, "ok">>, <<43, "ok">>, <<44, "ok">>, <<44, "frag">>, <<51, "ok">>, <<60, "long">>}
+ExtKinds == {<<0, "ok">>, <<60, "ok">>, <<43, "ok">>, <<44, "ok">>, <<44, "frag">>, <<51, "ok">>, <<60, "long">>, <<44, "rsv1">>, <<44, "rsv255">>}
 ExtFaults == {<<0, "cut">>, <<60, "big">>, <<43, "cut">>, <<44, "cut">>, <<51, "zero">>, <<51, "cut">>, <<51, "big">>, <<44, "more">>}
 Chains ==
   {<<a>> : a \in ExtKinds \cup ExtFaults}
